@@ -12,6 +12,7 @@ import Cirbo.Model.Passes
 import Driver.Gens
 import Driver.SynthDrv
 import Driver.NormDrv
+import Cirbo.Model.Pattern
 /-! `cirbo_model`: one JSON request per input line, one JSON response per output line. -/
 open Lean Cirbo Driver
 
@@ -248,6 +249,16 @@ def handle (j : Json) : Except String Json := do
       pure (ofExcept jCircuit (cleanup c heavy))
     | _ => throw "bad mode"
   | "gen" => GenDrv.genOp j
+  | "pattern_inputs" => do
+    let k ← (← j.getObjVal? "k").getNat?
+    pure (ok (Json.arr ((Pattern.genInputsTT k).map (fun (n : Nat) => Json.num (n : JsonNumber))).toArray))
+  | "pattern_eval" => do
+    let k ← (← j.getObjVal? "k").getNat?
+    let tyName ← (← j.getObjVal? "ty").getStr?
+    let ops ← nats (← j.getObjVal? "ops")
+    match GateType.ofName? tyName with
+    | none => throw "bad type"
+    | some ty => pure (ofExcept (fun (n : Nat) => Json.num (n : JsonNumber)) (Pattern.evalPattern k ty ops))
   | "normalize" => NormDrv.handle op j
   | "denormalize" => NormDrv.handle op j
   | "denorm_rows" => NormDrv.handle op j
